@@ -36,22 +36,18 @@ Theorem start_ok_spec s t vm u b :
   (* mutual exclusion *)
   ~ In u (map snd (j_live s)) /\ ~ In u (map snd (j_infl s)) /\
   (* locked by this dispatcher, not cancelled for longer than the grace period *)
-  (In u (j_locked s) \/ exists tu, lookZ u (j_unlocked s) = Some tu /\ t <= tu + grace) /\
-  (forall tc, lookZ u (j_cancelled s) = Some tc -> t <= tc + grace) /\
+  In u (j_locked s) /\ (forall tc, lookZ u (j_cancelled s) = Some tc -> t <= tc + grace) /\
   (* not on a booting VM, not on one seen held / draining / shut down for longer than the grace period *)
   b = false /\ (forall tb, lookZ vm (j_bad s) = Some tb -> t <= tb + grace).
 Proof.
   unfold start_ok. rewrite !andb_true_iff, !negb_true_iff.
   assert (Hn : forall x l, memN x l = false <-> ~ In x l).
   { intros x l. rewrite <- memN_spec. destruct (memN x l); split; intros; congruence. }
-  rewrite !Hn, orb_true_iff, memN_spec. split.
+  rewrite !Hn, memN_spec. split.
   - intros (((((A & B) & C) & D) & E) & F). repeat split; auto.
-    + destruct C as [C|C]; [left; exact C|right]. destruct (lookZ u (j_unlocked s)) as [tu|]; [|discriminate].
-      exists tu. split; [reflexivity|apply Z.leb_le; exact C].
     + intros tc Hc. rewrite Hc in D. apply Z.leb_le. exact D.
     + intros tb Hb. rewrite Hb in F. apply Z.leb_le. exact F.
   - intros (A & B & C & D & E & F). repeat split; auto.
-    + destruct C as [C|(tu & Hu & Ht)]; [left; exact C|right]. rewrite Hu. apply Z.leb_le. exact Ht.
     + destruct (lookZ u (j_cancelled s)) as [tc|]; [apply Z.leb_le; apply D; reflexivity|reflexivity].
     + destruct (lookZ vm (j_bad s)) as [tb|]; [apply Z.leb_le; apply F; reflexivity|reflexivity].
 Qed.
@@ -65,7 +61,7 @@ Example judge_rejects_double :
   judge j0 [XLock 1 7; XStartBegin 2 1 7 false; XStartEnd 3 1 7 true; XStartBegin 12 2 7 false] = false.
 Proof. vm_compute. reflexivity. Qed.
 Example judge_rejects_unlocked :
-  judge j0 [XLock 1 7; XUnlock 2 7; XStartBegin 5000 1 7 false] = false.
+  judge j0 [XLock 1 7; XUnlock 2 7; XStartBegin 3 1 7 false] = false.
 Proof. vm_compute. reflexivity. Qed.
 Example judge_rejects_booting :
   judge j0 [XLock 1 7; XStartBegin 3 1 7 true] = false.
